@@ -142,6 +142,7 @@ inline Script from_bytes(const uint8_t *data, size_t size)
 		t.order = r.u8();
 		t.err_code = r.u8();
 		t.err_ver = r.u8();
+		t.bulk = t.err_ver >= 200 ? t.err_ver % 9 : 0; // (cache data with more than 100 records of a kind)
 		t.ver_byte = r.u8();
 		for (int k = 0; k < 3; k++) t.iv[k] = r.u8() % IV_N;
 		uint8_t e = r.u8();
